@@ -287,10 +287,8 @@ impl<'p> Ev<'p> {
                 if n == "concat" {
                     return unspec("declaration shadows a built-in");
                 }
-                // A declaration and an unqualified import of the same name: unspecified.
-                if self.imported(env.module, &None, n)?.is_some() {
-                    return unspec("declaration collides with an unqualified import");
-                }
+                // A declaration wins over an unqualified import of the same name (the
+                // compiler may also report the pair as a duplicate).
                 return self.decl(env.module, *i, ann);
             }
         }
@@ -379,7 +377,10 @@ impl<'p> Ev<'p> {
             locals: Rc::new(Locals::Nil),
         };
         if name.starts_with('@') {
-            if has_use_ann {
+            // The component keeps the annotations of its first evaluation, which makes
+            // use-site keys that reach the component body order dependent (unspecified).
+            // `required` and `examples` are only read from the use itself.
+            if has_use_ann && !use_ann.keys().all(|k| matches!(k.as_str(), Some("required") | Some("examples"))) {
                 return unspec("use-site annotation on a @reference");
             }
             let mut bare = name.trim_start_matches('@').to_owned();
@@ -399,7 +400,11 @@ impl<'p> Ev<'p> {
                 None => {}
             }
             self.named_from.insert(bare.clone(), module);
-            let (v, a) = self.eval(body, &env, ann.clone())?;
+            let mut decl_ann = Mapping::new();
+            for a in anns {
+                deep_extend(&mut decl_ann, &parse_ann(a)?);
+            }
+            let (v, a) = self.eval(body, &env, decl_ann)?;
             let sch = self.to_schema(&v, &a)?;
             self.named.insert(bare.clone(), sch.s);
             self.named_vals.insert(bare.clone(), (v, a));
@@ -1227,6 +1232,9 @@ pub struct Resolution {
     pub duplicates: bool,
     pub unbound: bool,
     pub unspecified: Option<&'static str>,
+    /// A declaration has the name of something an unqualified import provides: the
+    /// property lets the declaration win; reporting the pair as a duplicate is tolerated.
+    pub decl_vs_import: bool,
 }
 
 struct Res<'a> {
@@ -1255,9 +1263,6 @@ impl Res<'_> {
             if let Some(i) = self.decls[module].get(n) {
                 if n == "concat" {
                     return Bind::Unspecified("declaration shadows a built-in");
-                }
-                if !self.imported(module, &None, n).is_empty() {
-                    return Bind::Unspecified("declaration collides with an unqualified import");
                 }
                 return Bind::Binder(*i);
             }
@@ -1395,7 +1400,7 @@ pub fn resolve(p: &Program, printed: &Printed) -> Resolution {
             if n == "concat" {
                 r.out.unspecified = Some("declaration shadows a built-in");
             } else if !r.imported(mi, &None, &n).is_empty() {
-                r.out.unspecified = Some("declaration collides with an unqualified import");
+                r.out.decl_vs_import = true;
             }
         }
     }
